@@ -117,6 +117,29 @@ func Caller(rs []*rec, a, b *rec, m map[string]int, s set) (int, error) {
 func Forward(r *rec) error {
 	return check(r, 5)
 }
+
+// a call among otherwise pure results of a return
+func Part(r *rec) (int, error) {
+	return 7, check(r, 3)
+}
+
+// a *T local returned as an interface must not be unified with an interface-typed target
+type namer interface{ Name() string }
+
+func (r *rec) Name() string { return r.name }
+
+func pick(k int, a *rec) namer {
+	var res *rec
+	if k == 1 {
+		res = a
+	}
+	return res
+}
+
+func Typed(k int, a *rec) bool {
+	n := pick(k, a)
+	return n == nil
+}
 `
 
 func TestInlinerSmoke(t *testing.T) {
@@ -175,6 +198,14 @@ func TestInlinerSmoke(t *testing.T) {
 		if !strings.Contains(body, want) {
 			t.Errorf("expected %q in the expanded Caller:\n%s", want, body)
 		}
+	}
+	part := ov[strings.Index(ov, "func Part"):strings.Index(ov, "type namer")]
+	if strings.Contains(part, "check(") || !strings.Contains(part, "return 7, inl_r") {
+		t.Errorf("call among the results of a return not hoisted and expanded:\n%s", part)
+	}
+	typed := ov[strings.Index(ov, "func Typed"):]
+	if !strings.Contains(typed, "*rec") {
+		t.Errorf("the *rec local of pick must keep its type when pick is expanded into Typed:\n%s", typed)
 	}
 	// positions map back to the original file
 	fi := cur.Func("demo", "Caller")
